@@ -10,3 +10,29 @@ Theorem C13_two_workers_refuted :
     | None => False
     end.
 Proof. exists [Take 0; Take 1; Deliver 1; Deliver 0]. vm_compute. reflexivity. Qed.
+
+From VMQ Require Import model.Handoff.
+
+(* the connection end as it was (the subscriber persists directly from SignalOffline on): message 2, routed while the
+   queue holding message 1 is still on its way to persistence, is transmitted first by the next connection *)
+Theorem C13_handoff_close_as_it_was_refuted :
+  exists es : list (@ev nat),
+    let s := @run nat 1 init es in sent s <> routed es /\ length (sent s) = length (routed es).
+Proof.
+  exists [OpenBegin; OpenEnd; Route 1; CloseBegin; Route 2; CloseEnd; OpenBegin; OpenEnd; Send; Send].
+  vm_compute. split; [discriminate|reflexivity].
+Qed.
+Print Assumptions C13_handoff_close_as_it_was_refuted.
+
+(* the connection set-up as it was (backlog loaded and reader started before the subscriber is switched): message 2,
+   routed between the load and the switch, stays in persistence although the connection is established and everything
+   else - the later message 3 included - has been transmitted *)
+Theorem C13_handoff_open_as_it_was_refuted :
+  exists es : list (@ev nat),
+    let s := @run nat 2 init es in
+    ph s = Connected /\ txq s = [] /\ store s = [2] /\ sent s = [1; 3] /\ step 2 s Send = s.
+Proof.
+  exists [Route 1; OpenBegin; Route 2; OpenEnd; Route 3; Send; Send].
+  vm_compute. repeat split.
+Qed.
+Print Assumptions C13_handoff_open_as_it_was_refuted.
